@@ -28,3 +28,83 @@ claim("C07",
        "three Decimal divisions is covered by the property's own 1e-30 tolerance (measured max deviation reported in evidence).",
   technique="Lean 4 proof (Nat/Rat inequalities) + differential correspondence with the Python code",
   ref="DESIGN.md §2 C07")
+
+claim("C11",
+  text="Lean theorems about a hand-written model of AaveV3Market's risk logic: the risk figures equal the Aave v3 definitions; accept-iff characterisations of "
+       "borrow / withdraw / change_collateral mirroring the code's requires in order; an accepted borrow is covered by collateral x weighted max-LTV and leaves "
+       "HF >= 1 (LTV <= LT); an accepted collateral withdrawal or flag switch leaves HF >= 1; HF >= 1 is an invariant of sequences of those calls; "
+       "get_max_borrow_amount = 0.99 x limit and is accepted, beyond the limit is rejected; get_max_withdraw_amount <= supplied, accepted in exact arithmetic, "
+       "beyond it rejected. Tied to AaveV3Market by bit-exact differential execution (outcome class, cause, post-state, amounts, figures) on in-memory markets "
+       "over the repo's risk-parameter CSVs and by an exact-Fraction oracle at the accept/reject frontier x {1 +- 1e-9, 1 +- 1e-3}.",
+  note="Known finding max_withdraw.rejected-by-rounding: withdraw(get_max_withdraw_amount) is refused under the Decimal rounding (kernel-checked witness "
+       "C11_fails_max_withdraw_rounded; the acceptance theorem carries _partial). HF >= 1 after a withdrawal holds up to the sub_base_amount dust "
+       "(< 1e-18 scaled units, explicit in the theorem, with a witness that the term is needed). supply / repay are modelled in the Aave state machine (C10/C13), "
+       "not here. Exact rational semantics; 35-digit rounding reproduced bit-exactly by the driver; within 1e-30 of HF = 1 the rounding decides. One defect repaired (ba78d79).",
+  technique="Lean 4 proof (field arithmetic, list induction) over a model with source-regenerated constants; step-wise differential correspondence plus exact-Fraction oracle",
+  ref="DESIGN.md §2 C11")
+
+claim("C12",
+  text="Lean theorems about a hand-written model of AaveV3Market.update -> _liquidate -> _do_liquidate (as repaired). Per step: close factor 50 %/100 % around "
+       "HF 0.95 with the constants regenerated from the source; seized value = repaid value x (1 + the collateral's bonus), or the whole balance with the repayment "
+       "scaled down; state change measured with the collateral's own liquidity index; delta net value = -bonus x repaid value; non-negativity; record = recomputation. "
+       "Loop, for every rounding context: nothing happens unless 0 < HF < 1, terminates within #debts iterations, every debt visited at most once, ends with the loop "
+       "condition false or every debt visited. On well-formed portfolios: no exception, liquidation iff 0 < HF < 1, ends with no debt / HF >= 1 / no collateral / all "
+       "visited, every recorded action is a proper step; the pair selection (smallest unvisited debt, largest collateral, last on ties) is characterised. Tied to the "
+       "code by bit-exact differential execution on in-memory markets (multi-collateral, multi-debt, per-token indices, 2-4-bar price paths, ties, malformed shapes) "
+       "and by an exact-Fraction oracle on the implementation's own observations (states at every recorded action, wallet).",
+  note="Exact rational semantics; 35-digit rounding reproduced bit-exactly by the driver and measured. Statements hold up to the dust helper.sub_base_amount snaps "
+       "(< MIN_TOKEN_VALUE = 1e-18 - 1e-27 scaled units), explicit in the theorems. WF hypotheses: prices and indices > 0, bases >= 0, unique keys, collateral => LT > 0 "
+       "(re-checked on the CSVs each run). Wallet-untouched is structural in the model and oracle-checked on the code. Three defects repaired (97b6191, 1a74ab7, 75ca867).",
+  technique="Lean 4 proof (fold invariants, fuel induction, field arithmetic) over a model with source-regenerated constants; step-wise differential correspondence plus exact oracle",
+  ref="DESIGN.md §2 C12")
+
+claim("C14",
+  text="28 Lean theorems about a hand-written model of squeeth/market.py: every accepted mint, collateral withdrawal and LP withdrawal leaves the vault with no debt or "
+       "with effective collateral (ETH + LP WETH + LP oSQTH at index price) >= 1.5 x debt at TWAP and >= 0.5 ETH (for every rounding context; constants regenerated "
+       "from the source); the TWAP window is rows[max 0 (k-6) .. k] on the minute grid; update liquidates exactly the unsafe vaults and leaves safe ones alone; "
+       "liquidation redeems the LP first (2 % bounty capped at the vault's ETH), then burns half the debt (all if < 0.5 ETH would remain) against debt x TWAP x 1.1 "
+       "capped at collateral; 'Dust vault left' unreachable; amounts never negative for any operation and along paths; mint/burn/deposit/withdraw move exactly the "
+       "stated amounts (or snap within 1e-5 wallet dust). Tied to the code by step-wise bit-exact differential execution against driver_squeeth (operation sequences, "
+       "exact ties, real Actuator.run bar loops) and an independent exact-Fraction oracle on the implementation's observations.",
+  note="The geometric mean (float log/pow) is an oracle value captured from the real calc_twap_price (cross-checked at 1e-9 against a 60-digit mean); only the window "
+       "selection is modelled and proved. Pool orientation token0 = WETH = quote assumed; buy_squeeth/sell_squeeth not modelled. One known finding (closed pool at a "
+       "liquidation bar raises instead of liquidating). Seven fix: commits (751c31f, deb9025, f77c9aa, 517bf82, ce449ad, 4da5e32, a6df880).",
+  technique="Lean 4 proof (case analysis, list induction, invariants) + step-wise differential correspondence + exact-Fraction oracle",
+  ref="DESIGN.md §2 C14")
+
+claim("C17",
+  text="Lean theorems: GMX v1 fee in [0, 25+60 bp] and within 1 bp (+200/target) of the Vault's integer getFeeBasisPoints off its discontinuity; mint and redeem follow "
+       "price x amount / value per share with every contract round-down step including adjustForDecimals; a same-bar buy-then-sell never returns more than paid; "
+       "rewards accrue interval*60*held/supply; holdings never go negative and over-redemption is rejected (any sequence). v2 (one polymorphic model text, Rat for "
+       "theorems, Float for the driver): GM minted and redeemed by pool value per share with deposit/withdraw fee factors and a positive impact capped by the impact "
+       "pool; round trip returns <= paid when impact <= 0, with an exact closed form otherwise; shares never negative. Tied to the code by step-wise differential "
+       "execution against real GmxMarket / GmxV2Market objects (v1 bit-exact under 35-digit rounding, v2 at 1e-12) and independent Fraction oracles written from "
+       "the property and contract, on recorded CSV rows and generated rows.",
+  note="Known findings with kernel-checked witnesses: the code never floors target/average/rebate, so it differs from the Vault at the rule's mirror point (0 vs 85 bp) "
+       "and for targets below 200 wei; the v2 positive-impact round trip profits on a frozen row (by design of the GM formulas). v2 Float vs Rat semantics is measured "
+       "(libm pow is an oracle on both sides). Five defects repaired (155684f, 8743204, 6f3533d, a18ed8c, 6da6425).",
+  technique="Lean 4 proof (floor arithmetic, field arithmetic, induction over op lists) + step-wise differential correspondence + Fraction oracles",
+  ref="DESIGN.md §2 C17")
+
+claim("C19",
+  text="Lean theorems about a model of BacktestManager's data flow (sequential path threading the configuration's markets and data frames, forked pool with per-worker "
+       "data and arbitrary task->worker assignment, Windows branch), strategies = arbitrary state transformers: with the current code (source flags regenerated each "
+       "run) and pandas copy-on-write every strategy's observation equals its solo run for every strategy list, order, thread count and schedule; negation witnesses "
+       "for both pre-fix behaviours. Oracle: the real BacktestManager with 1-4 scripted strategies (14 behaviours incl. add_column and in-place data overwrite) over "
+       "{uni},{uni,uni},{uni,aave}, threads 1/2/4, orders, each pooled case in a fresh subprocess, dumps compared exactly with solo runs.",
+  note="OS scheduling / fork / pickling are runtime behaviour: measured, not proved. copy.deepcopy and DataFrame.copy(deep=False) under copy-on-write trusted (frames "
+       "hashed and configured markets checked after every run). For pandas < 3 only the partial theorem (no in-place overwrites) holds. Defects repaired: 5529c57, f43dc27.",
+  technique="Lean 4 proof (induction over strategy lists, all schedules) + whole-run differential oracle against solo runs",
+  ref="DESIGN.md §2 C19")
+
+claim("C20",
+  text="Lean theorems about an exact-rational model of the metric code: the max-drawdown index scan equals the definition (largest relative decline i<=j) for every "
+       "positive series, is 0 for never-falling series, lies in [0,1), is scale-invariant, equals the running-peak form; return multiple/rate series equal their "
+       "definitions, the products telescope so total and annualised returns agree across end-point / net-value / rate-series forms for every pow oracle; sample "
+       "variance (ddof 1), volatility, Sharpe, alpha/beta equal their direct formulas; every entry of performance_metrics is the corresponding function on "
+       "interval/duration derived from the index. Tied to the code by differential execution (exact model fed the floats' exact values, 1e-9 relative) and by an "
+       "exact-Fraction oracle of the definitions on the implementation's outputs.",
+  note="Trusted: Lean kernel, tools/consts_metrics.py (365, 1e9, 86400, scan start values), harness generators. Float rounding of numpy/pandas is measured (max 3.9e-11), "
+       "not proved; pow/sqrt are oracle parameters (driver: Lean Float). Series with return variance < 1e-12*mean^2 compared by outcome class only. Defect repaired: 4a8a932.",
+  technique="Lean 4 proof (loop invariant + list induction over Rat) + differential correspondence + exact-Fraction oracle",
+  ref="DESIGN.md §2 C20")
